@@ -28,7 +28,7 @@ import (
 // server must be detected no earlier than one timeout after the last send.
 
 type c18Step struct {
-	Kind  string // single | batch | early | cancelled (batch) | cancelled-single (unbatched calls) | ooo | race-clear | one-of-n | idle | silent
+	Kind  string // single | batch | early | cancelled (batch) | cancelled-single (unbatched calls) | cancelled-in-write | ooo | race-clear | one-of-n | idle | silent
 	N     int
 	Delay time.Duration
 }
@@ -54,7 +54,7 @@ func genC18Case(r *rand.Rand, realtime bool) c18Case {
 	// loaded machine must not be able to make a healthy server look silent
 	cs := c18Case{Seed: r.Int63(), Timeout: []time.Duration{time.Second, 2 * time.Second}[r.Intn(2)],
 		Queue: []int{1, 2, 100}[r.Intn(3)], Full: r.Intn(3) == 0}
-	kinds := []string{"single", "single", "batch", "early", "early", "cancelled", "cancelled-single", "ooo", "race-clear", "one-of-n"}
+	kinds := []string{"single", "single", "batch", "early", "early", "cancelled", "cancelled-single", "cancelled-in-write", "ooo", "race-clear", "one-of-n"}
 	for i, n := 0, 3+r.Intn(8); i < n; i++ {
 		cs.Steps = append(cs.Steps, c18Step{Kind: kinds[r.Intn(len(kinds))], N: 1 + r.Intn(5)})
 	}
@@ -85,6 +85,8 @@ func runC18Case(c *fw.Ctx, id string, cs c18Case) {
 	holdSkip.Store("")
 	var clearHook atomic.Value // func(): runs inside the connection's "clear the read deadline" call
 	clearHook.Store(func() {})
+	var cancelInWrite atomic.Value // func(): runs inside the next Write of a request, after its bytes went out
+	cancelInWrite.Store(func() {})
 	cl.OnRequest = func(req *sim.Request) *sim.Reply {
 		if atomic.LoadInt32(&silent) == 1 && (req.Single == nil || req.Single.OpID != "") && req.Scan == nil {
 			return &sim.Reply{Drop: true}
@@ -112,6 +114,7 @@ func runC18Case(c *fw.Ctx, id string, cs c18Case) {
 			}
 		}
 		fc.BeforeWriteReturn = func(int) {
+			cancelInWrite.Swap(func() {}).(func())()
 			if atomic.CompareAndSwapInt32(&forceEarly, 1, 0) {
 				// hold the writer inside Write until the response has been read
 				// (a server that answers faster than the writer returns)
@@ -296,23 +299,29 @@ func runC18Case(c *fw.Ctx, id string, cs c18Case) {
 	for si, st := range cs.Steps {
 		where := fmt.Sprintf("after step %d (%s)", si, st.Kind)
 		switch st.Kind {
-		case "single", "batch", "early", "cancelled", "cancelled-single", "ooo":
+		case "single", "batch", "early", "cancelled", "cancelled-single", "cancelled-in-write", "ooo":
 			var calls []hrpc.Call
 			stepOps = nil
 			ctx := context.Background()
 			var cancel context.CancelFunc
 			stepStart := time.Now()
 			var heldFor time.Duration
-			if st.Kind == "cancelled" || st.Kind == "cancelled-single" {
+			if st.Kind == "cancelled" || st.Kind == "cancelled-single" || st.Kind == "cancelled-in-write" {
 				ctx, cancel = context.WithCancel(ctx)
 			}
 			n := st.N
+			if st.Kind == "cancelled-in-write" {
+				// one unbatched call gives up while its request is being written (the
+				// bytes are out, Write has not returned yet); the server answers it
+				n = 1
+				cancelInWrite.Store(func() { cancel(); c.Count("calls_cancelled_inside_write", 1) })
+			}
 			if st.Kind == "early" {
 				n = 1
 				atomic.StoreInt32(&forceEarly, 1)
 			}
 			for i := 0; i < n; i++ {
-				calls = append(calls, mkCall(ctx, st.Kind == "early" || st.Kind == "cancelled-single" || (st.Kind == "single" && i%2 == 0)))
+				calls = append(calls, mkCall(ctx, st.Kind == "early" || st.Kind == "cancelled-single" || st.Kind == "cancelled-in-write" || (st.Kind == "single" && i%2 == 0)))
 			}
 			var h chan struct{}
 			holdStart := time.Now()
@@ -384,7 +393,14 @@ func runC18Case(c *fw.Ctx, id string, cs c18Case) {
 			if time.Since(stepStart)-heldFor > cs.Timeout*5/10 {
 				slow = true
 			}
+			if st.Kind == "cancelled-in-write" {
+				cancel()
+				cancelInWrite.Store(func() {})
+			}
 			for _, e := range errs {
+				if st.Kind == "cancelled-in-write" {
+					break
+				}
 				if e != nil && st.Kind != "cancelled" && st.Kind != "cancelled-single" && slow {
 					c.Inconclusive("harness-slower-than-read-timeout")
 					return
@@ -394,7 +410,7 @@ func runC18Case(c *fw.Ctx, id string, cs c18Case) {
 					return
 				}
 			}
-			if st.Kind == "cancelled" || st.Kind == "cancelled-single" {
+			if st.Kind == "cancelled" || st.Kind == "cancelled-single" || st.Kind == "cancelled-in-write" {
 				// responses to the cancelled calls are read and skipped: wait until
 				// the server has written them and the reader had time to take them
 				time.Sleep(10 * time.Millisecond)
